@@ -180,4 +180,897 @@ theorem Inv.unique (h : Inv L es gs n) {g1 g2 : Grant} (h1 : g1 ∈ gs) (h2 : g2
   cases he1
   rw [← ho1, ← ho2]
 
+
+/-! ## in-memory cache: the lease invariant is preserved by every call (repaired eviction) -/
+
+def MemInv (s : Mem) : Prop := Inv memLive s.entries s.grants s.now
+
+theorem tick_fst (cfg : MemCfg) (s : Mem) : (tick cfg s).1 = { s with now := s.now + cfg.readCost } := rfl
+theorem tick_snd (cfg : MemCfg) (s : Mem) : (tick cfg s).2 = s.now := rfl
+
+theorem MemInv.tick {cfg : MemCfg} {s : Mem} (h : MemInv s) : MemInv (tick cfg s).1 :=
+  Inv.time (n' := s.now + cfg.readCost) h (Nat.le_add_right _ _)
+
+theorem evictKey_spec {cfg : MemCfg} {s s' : Mem} {t k vk : Nat}
+    (h : evictKey cfg s t (shardEntries cfg s.entries k) vk = some s') :
+    ∃ v, get s.entries vk = some v ∧ evictable cfg t v = true ∧ s' = { s with entries := del s.entries vk } := by
+  unfold evictKey at h
+  split at h
+  · rename_i v hv
+    split at h
+    · rename_i ha
+      refine ⟨v, get_filter_shard cfg.shardOf _ _ _ _ hv, ?_, (Option.some.inj h).symm⟩
+      unfold admissibleVictim at ha
+      exact (Bool.and_eq_true _ _ ▸ ha).1
+    · cases h
+  · cases h
+
+theorem evictChoose_spec {cfg : MemCfg} {s s' : Mem} {t k : Nat} {hints h' : List Nat}
+    (h : evictChoose cfg s t (shardEntries cfg s.entries k) hints = some (s', h')) :
+    s' = s ∨ ∃ vk v, get s.entries vk = some v ∧ evictable cfg t v = true ∧ s' = { s with entries := del s.entries vk } := by
+  unfold evictChoose at h
+  split at h
+  · rename_i vk rest
+    cases hk : evictKey cfg s t (shardEntries cfg s.entries k) vk with
+    | none => simp [hk] at h
+    | some s'' =>
+      simp [hk] at h
+      obtain ⟨rfl, _⟩ := h
+      obtain ⟨v, hv, hev, rfl⟩ := evictKey_spec hk
+      exact Or.inr ⟨vk, v, hv, hev, rfl⟩
+  · split at h
+    · cases h; exact Or.inl rfl
+    · rename_i v _
+      cases hk : evictKey cfg s t (shardEntries cfg s.entries k) v.key with
+      | none => simp [hk] at h
+      | some s'' =>
+        simp [hk] at h
+        obtain ⟨rfl, _⟩ := h
+        obtain ⟨v', hv, hev, rfl⟩ := evictKey_spec hk
+        exact Or.inr ⟨v.key, v', hv, hev, rfl⟩
+    · cases h
+
+theorem evict_inv {cfg : MemCfg} (hp : cfg.protectLive = true) {s s' : Mem} {k : Nat} {hints h' : List Nat}
+    (hi : MemInv s) (h : evict cfg s k hints = some (s', h')) :
+    MemInv s' ∧ (get s.entries k = none → get s'.entries k = none) := by
+  unfold evict at h
+  simp only [hp, if_true] at h
+  split at h
+  · cases h; exact ⟨hi, id⟩
+  · -- the clock was read; the victim (if any) is dead at that reading
+    rcases evictChoose_spec (s := (tick cfg s).1) h with rfl | ⟨vk, v, hv, hev, rfl⟩
+    · exact ⟨MemInv.tick hi, id⟩
+    · refine ⟨?_, ?_⟩
+      · apply Inv.del_dead (MemInv.tick hi)
+        intro e he
+        rw [show (tick cfg s).1.entries = s.entries from rfl] at hv
+        rw [show (tick cfg s).1.entries = s.entries from rfl] at he
+        rw [hv] at he; cases he
+        have hlt : v.exp < s.now := by
+          simp only [evictable, hp, after, tick_snd, Bool.not_true, Bool.false_or] at hev
+          exact of_decide_eq_true hev
+        show ¬ (s.now + cfg.readCost ≤ v.exp)
+        omega
+      · intro hn
+        show get (del s.entries vk) k = none
+        by_cases hkv : k = vk
+        · subst hkv; exact get_del_same _ _
+        · rw [get_del_ne _ hkv]; exact hn
+
+theorem rollback_inv (o : Nat) : ∀ (acq : List Nat) (s : Mem), MemInv s → MemInv (rollback o s acq)
+  | [], _, h => h
+  | a :: as, s, h => by
+    unfold rollback
+    apply rollback_inv o as
+    cases hg : get s.entries a with
+    | none => exact Inv.rel h a o
+    | some v =>
+      by_cases hv : v.owner = o
+      · simp only [hv, beq_self_eq_true, if_true]
+        exact Inv.del_own h (fun e he => by rw [hg] at he; cases he; exact hv)
+      · have : (v.owner == o) = false := by simpa using hv
+        simp only [this]
+        exact Inv.rel h a o
+
+theorem rollback_now (o : Nat) : ∀ (acq : List Nat) (s : Mem), (rollback o s acq).now = s.now
+  | [], _ => rfl
+  | a :: as, s => by
+    unfold rollback
+    rw [rollback_now o as]
+    cases get s.entries a with
+    | none => rfl
+    | some v => by_cases hv : (v.owner == o) = true <;> simp [hv]
+
+theorem lockLoop_inv {cfg : MemCfg} (hp : cfg.protectLive = true) (o d : Nat) :
+    ∀ (ks : List Nat) (s : Mem) (acq hints : List Nat), MemInv s → MemInv (lockLoop cfg o d ks s acq hints).s
+  | [], _, _, _, h => h
+  | k :: ks, s, acq, hints, h => by
+    unfold lockLoop
+    simp only [tick_fst, tick_snd]
+    have h1 : MemInv { s with now := s.now + cfg.readCost } := MemInv.tick (cfg := cfg) h
+    cases hg : get s.entries k with
+    | some ex =>
+      simp only []
+      have h2 : Inv memLive s.entries s.grants (s.now + cfg.readCost + cfg.readCost) :=
+        Inv.time h1 (Nat.le_add_right _ _)
+      by_cases ha : after (s.now + cfg.readCost) ex.exp = true
+      · simp only [ha, if_true]
+        apply lockLoop_inv hp o d ks
+        apply Inv.put_grant h2
+        intro e he
+        rw [hg] at he; cases he
+        left
+        have : ex.exp < s.now + cfg.readCost := of_decide_eq_true ha
+        show ¬ (s.now + cfg.readCost + cfg.readCost ≤ ex.exp)
+        omega
+      · simp only [ha]
+        by_cases ho : ex.owner = o
+        · simp only [ho, beq_self_eq_true, if_true]
+          apply lockLoop_inv hp o d ks
+          exact Inv.grant_existing h2 hg ho
+        · have : (ex.owner == o) = false := by simpa using ho
+          simp only [this]
+          exact rollback_inv o acq _ h2
+    | none =>
+      simp only []
+      cases he : evict cfg { s with now := s.now + cfg.readCost } k hints with
+      | none => exact h1
+      | some r =>
+        obtain ⟨s', hints'⟩ := r
+        simp only []
+        obtain ⟨hi', hn'⟩ := evict_inv hp h1 he
+        apply lockLoop_inv hp o d ks
+        apply Inv.put_grant hi'
+        intro e he'
+        rw [hn' hg] at he'; cases he'
+
+theorem isLockedLoop_inv {cfg : MemCfg} (o : Nat) :
+    ∀ (ks : List Nat) (s : Mem), MemInv s → MemInv (memIsLockedLoop cfg o ks s).1
+  | [], _, h => h
+  | k :: ks, s, h => by
+    unfold memIsLockedLoop
+    cases get s.entries k with
+    | none => exact h
+    | some e =>
+      simp only []
+      by_cases ho : (e.owner != o) = true
+      · simp only [ho, if_true]; exact h
+      · simp only [ho]
+        by_cases ha : after (tick cfg s).2 e.exp = true
+        · simp only [ha, if_true]; exact MemInv.tick h
+        · simp only [ha]; exact isLockedLoop_inv o ks _ (MemInv.tick h)
+
+theorem ttlCheck_inv {cfg : MemCfg} (o : Nat) :
+    ∀ (ks : List Nat) (s : Mem), MemInv s → MemInv (memTtlCheck cfg o ks s).1
+  | [], _, h => h
+  | k :: ks, s, h => by
+    unfold memTtlCheck
+    cases hg : get s.entries k with
+    | none => exact h
+    | some e =>
+      simp only []
+      by_cases ho : (e.owner != o) = true
+      · simp only [ho, if_true]; exact h
+      · simp only [ho]
+        by_cases ha : after (tick cfg s).2 e.exp = true
+        · simp only [ha, if_true]
+          apply Inv.del_dead (MemInv.tick (cfg := cfg) h)
+          intro e' he'
+          rw [show (tick cfg s).1.entries = s.entries from rfl, hg] at he'; cases he'
+          have : e.exp < s.now := of_decide_eq_true ha
+          show ¬ (s.now + cfg.readCost ≤ e.exp)
+          omega
+        · simp only [ha]; exact ttlCheck_inv o ks _ (MemInv.tick h)
+
+theorem ttlRefresh_inv (o x : Nat) :
+    ∀ (ks : List Nat) (s : Mem), MemInv s → MemInv (memTtlRefresh o x ks s).1
+  | [], _, h => h
+  | k :: ks, s, h => by
+    unfold memTtlRefresh
+    cases hg : get s.entries k with
+    | none => exact h
+    | some e =>
+      simp only []
+      by_cases ho : (e.owner != o) = true
+      · simp only [ho, if_true]; exact h
+      · simp only [ho]
+        apply ttlRefresh_inv o x ks
+        apply Inv.put_grant h
+        intro e' he'
+        rw [hg] at he'; cases he'
+        right
+        simpa using ho
+
+theorem memIsLockedTTL_inv {cfg : MemCfg} (s : Mem) (o d : Nat) (keys : List Nat) (h : MemInv s) :
+    MemInv (memIsLockedTTL cfg s o d keys).1 := by
+  unfold memIsLockedTTL
+  have h1 := ttlCheck_inv (cfg := cfg) o keys s h
+  cases hc : memTtlCheck cfg o keys s with
+  | mk s1 b =>
+    rw [hc] at h1
+    cases b with
+    | false => exact h1
+    | true => exact ttlRefresh_inv o _ keys _ (MemInv.tick h1)
+
+theorem memUnlock_inv (o : Nat) : ∀ (ks : List Nat) (s : Mem), MemInv s → MemInv (memUnlock o ks s)
+  | [], _, h => h
+  | k :: ks, s, h => by
+    unfold memUnlock
+    apply memUnlock_inv o ks
+    cases hg : get s.entries k with
+    | none => exact Inv.rel h k o
+    | some v =>
+      by_cases hv : v.owner = o
+      · simp only [hv, beq_self_eq_true, if_true]
+        exact Inv.del_own h (fun e he => by rw [hg] at he; cases he; exact hv)
+      · have : (v.owner == o) = false := by simpa using hv
+        simp only [this]
+        exact Inv.rel h k o
+
+theorem memLock_inv {cfg : MemCfg} (hp : cfg.protectLive = true) (s : Mem) (o d : Nat) (keys hints : List Nat)
+    (h : MemInv s) : MemInv (memLock cfg s o d keys hints).s := by
+  unfold memLock
+  exact lockLoop_inv hp o _ _ s [] hints h
+
+theorem memStep_inv {cfg : MemCfg} (hp : cfg.protectLive = true) (s : Mem) (op : MemOp) (h : MemInv s) :
+    MemInv (memStep cfg s op).1 := by
+  cases op with
+  | adv d => exact Inv.time (n' := s.now + d) h (Nat.le_add_right _ _)
+  | lock o d keys hints =>
+    simp only [memStep]
+    split
+    · exact h
+    · exact memLock_inv hp s o d keys hints h
+  | dualLock o d keys hints =>
+    simp only [memStep]
+    split
+    · exact h
+    · split
+      · exact memLock_inv hp s o d keys hints h
+      · exact isLockedLoop_inv o _ _ (memLock_inv hp s o d keys hints h)
+  | isLocked o keys => exact isLockedLoop_inv o keys s h
+  | isLockedTTL o d keys => exact memIsLockedTTL_inv s o d keys h
+  | unlock o keys => exact memUnlock_inv o keys s h
+
+theorem memRun_inv {cfg : MemCfg} (hp : cfg.protectLive = true) : ∀ (ops : List MemOp) (s : Mem), MemInv s → MemInv (memRun cfg s ops)
+  | [], _, h => h
+  | op :: ops, s, h => by
+    show MemInv (memRun cfg (memStep cfg s op).1 ops)
+    exact memRun_inv hp ops _ (memStep_inv hp s op h)
+
+theorem memInit_inv : MemInv {} := by intro g hg; cases hg
+
+theorem mem_memHolders {s : Mem} {k o : Nat} :
+    o ∈ memHolders s k ↔ ∃ g ∈ s.grants, g.key = k ∧ s.now ≤ g.dl ∧ g.owner = o := by
+  simp only [memHolders, List.mem_map, List.mem_filter, Bool.and_eq_true, beq_iff_eq, decide_eq_true_eq]
+  constructor
+  · rintro ⟨g, ⟨hg, hk, hl⟩, ho⟩; exact ⟨g, hg, hk, hl, ho⟩
+  · rintro ⟨g, hg, hk, hl, ho⟩; exact ⟨g, ⟨hg, hk, hl⟩, ho⟩
+
+/-- in a state satisfying the lease invariant a key has at most one holder, and the store confirms it -/
+theorem MemInv.mutex {s : Mem} (h : MemInv s) {k o1 o2 : Nat} (h1 : o1 ∈ memHolders s k) (h2 : o2 ∈ memHolders s k) : o1 = o2 := by
+  obtain ⟨g1, hg1, hk1, hl1, rfl⟩ := mem_memHolders.1 h1
+  obtain ⟨g2, hg2, hk2, hl2, rfl⟩ := mem_memHolders.1 h2
+  exact Inv.unique h hg1 hg2 hl1 hl2 (hk1.trans hk2.symm)
+
+theorem MemInv.confirmed {s : Mem} (h : MemInv s) {k o : Nat} (ho : o ∈ memHolders s k) : memHolds s o k = true := by
+  obtain ⟨g, hg, hk, hl, rfl⟩ := mem_memHolders.1 ho
+  obtain ⟨e, he, heo, hx⟩ := h g hg hl
+  unfold memHolds
+  rw [← hk, he]
+  have : ¬ e.exp < s.now := by omega
+  simp [heo, after, this]
+
+/-! ### leases of other owners are never touched -/
+def KeepsOthers (o' : Nat) (s s' : Mem) : Prop := ∀ g ∈ s.grants, g.owner ≠ o' → g ∈ s'.grants
+
+theorem KeepsOthers.refl (o' : Nat) (s : Mem) : KeepsOthers o' s s := fun _ h _ => h
+theorem KeepsOthers.trans {o' : Nat} {a b c : Mem} (h1 : KeepsOthers o' a b) (h2 : KeepsOthers o' b c) : KeepsOthers o' a c :=
+  fun g hg ho => h2 g (h1 g hg ho) ho
+theorem KeepsOthers.of_grants_eq {o' : Nat} {a b : Mem} (h : b.grants = a.grants) : KeepsOthers o' a b :=
+  fun g hg _ => h ▸ hg
+theorem keeps_release {o' k : Nat} {gs : List Grant} {g : Grant} (hg : g ∈ gs) (ho : g.owner ≠ o') : g ∈ release gs k o' :=
+  mem_release.2 ⟨hg, fun ⟨_, h⟩ => ho h⟩
+theorem keeps_grant {o' k x : Nat} {gs : List Grant} {g : Grant} (hg : g ∈ gs) (ho : g.owner ≠ o') : g ∈ grant gs ⟨k, o', x⟩ :=
+  mem_grant.2 (Or.inr ⟨hg, fun ⟨_, h⟩ => ho h⟩)
+
+theorem rollback_keeps (o : Nat) : ∀ (acq : List Nat) (s : Mem), KeepsOthers o s (rollback o s acq)
+  | [], s => KeepsOthers.refl o s
+  | a :: as, s => by
+    unfold rollback
+    refine KeepsOthers.trans ?_ (rollback_keeps o as _)
+    intro g hg ho
+    have : g ∈ release s.grants a o := keeps_release hg ho
+    cases get s.entries a with
+    | none => exact this
+    | some v => by_cases hv : (v.owner == o) = true <;> simpa [hv] using this
+
+theorem evict_grants {cfg : MemCfg} {s s' : Mem} {k : Nat} {hints h' : List Nat}
+    (h : evict cfg s k hints = some (s', h')) : s'.grants = s.grants := by
+  unfold evict at h
+  cases hpl : cfg.protectLive with
+  | true =>
+    simp only [hpl, if_true] at h
+    split at h
+    · cases h; rfl
+    · rcases evictChoose_spec (s := (tick cfg s).1) h with rfl | ⟨_, _, _, _, rfl⟩ <;> rfl
+  | false =>
+    simp only [hpl, Bool.false_eq_true, if_false] at h
+    split at h
+    · cases h; rfl
+    · rcases evictChoose_spec h with rfl | ⟨_, _, _, _, rfl⟩ <;> rfl
+
+theorem lockLoop_keeps {cfg : MemCfg} (o d : Nat) :
+    ∀ (ks : List Nat) (s : Mem) (acq hints : List Nat), KeepsOthers o s (lockLoop cfg o d ks s acq hints).s
+  | [], s, _, _ => KeepsOthers.refl o s
+  | k :: ks, s, acq, hints => by
+    unfold lockLoop
+    simp only [tick_fst, tick_snd]
+    cases hg : get s.entries k with
+    | some ex =>
+      simp only []
+      by_cases ha : after (s.now + cfg.readCost) ex.exp = true
+      · simp only [ha, if_true]
+        refine KeepsOthers.trans ?_ (lockLoop_keeps o d ks _ _ _)
+        intro g hg' ho; exact keeps_grant hg' ho
+      · simp only [ha]
+        by_cases ho : (ex.owner == o) = true
+        · simp only [ho, if_true]
+          refine KeepsOthers.trans ?_ (lockLoop_keeps o d ks _ _ _)
+          intro g hg' ho'; exact keeps_grant hg' ho'
+        · simp only [ho]
+          refine KeepsOthers.trans ?_ (rollback_keeps o acq _)
+          exact KeepsOthers.of_grants_eq rfl
+    | none =>
+      simp only []
+      cases he : evict cfg { s with now := s.now + cfg.readCost } k hints with
+      | none => exact KeepsOthers.of_grants_eq rfl
+      | some r =>
+        obtain ⟨s', hints'⟩ := r
+        simp only []
+        refine KeepsOthers.trans ?_ (lockLoop_keeps o d ks _ _ _)
+        intro g hg' ho
+        apply keeps_grant _ ho
+        rw [evict_grants he]; exact hg'
+
+theorem isLockedLoop_grants {cfg : MemCfg} (o : Nat) :
+    ∀ (ks : List Nat) (s : Mem), (memIsLockedLoop cfg o ks s).1.grants = s.grants
+  | [], _ => rfl
+  | k :: ks, s => by
+    unfold memIsLockedLoop
+    cases get s.entries k with
+    | none => rfl
+    | some e =>
+      simp only []
+      by_cases ho : (e.owner != o) = true
+      · simp only [ho, if_true]
+      · simp only [ho]
+        by_cases ha : after (tick cfg s).2 e.exp = true
+        · simp only [ha, if_true]; rfl
+        · simp only [ha, Bool.false_eq_true, if_false]; rw [isLockedLoop_grants o ks]; rfl
+
+theorem ttlCheck_grants {cfg : MemCfg} (o : Nat) :
+    ∀ (ks : List Nat) (s : Mem), (memTtlCheck cfg o ks s).1.grants = s.grants
+  | [], _ => rfl
+  | k :: ks, s => by
+    unfold memTtlCheck
+    cases get s.entries k with
+    | none => rfl
+    | some e =>
+      simp only []
+      by_cases ho : (e.owner != o) = true
+      · simp only [ho, if_true]
+      · simp only [ho]
+        by_cases ha : after (tick cfg s).2 e.exp = true
+        · simp only [ha, if_true]; rfl
+        · simp only [ha, Bool.false_eq_true, if_false]; rw [ttlCheck_grants o ks]; rfl
+
+theorem ttlRefresh_keeps (o x : Nat) : ∀ (ks : List Nat) (s : Mem), KeepsOthers o s (memTtlRefresh o x ks s).1
+  | [], s => KeepsOthers.refl o s
+  | k :: ks, s => by
+    unfold memTtlRefresh
+    cases get s.entries k with
+    | none => exact KeepsOthers.refl o s
+    | some e =>
+      simp only []
+      by_cases ho : (e.owner != o) = true
+      · simp only [ho, if_true]; exact KeepsOthers.refl o s
+      · simp only [ho]
+        refine KeepsOthers.trans ?_ (ttlRefresh_keeps o x ks _)
+        intro g hg ho'; exact keeps_grant hg ho'
+
+theorem memUnlock_keeps (o : Nat) : ∀ (ks : List Nat) (s : Mem), KeepsOthers o s (memUnlock o ks s)
+  | [], s => KeepsOthers.refl o s
+  | k :: ks, s => by
+    unfold memUnlock
+    refine KeepsOthers.trans ?_ (memUnlock_keeps o ks _)
+    intro g hg ho
+    have : g ∈ release s.grants k o := keeps_release hg ho
+    cases get s.entries k with
+    | none => exact this
+    | some v => by_cases hv : (v.owner == o) = true <;> simpa [hv] using this
+
+theorem memUnlock_now (o : Nat) : ∀ (ks : List Nat) (s : Mem), (memUnlock o ks s).now = s.now
+  | [], _ => rfl
+  | k :: ks, s => by
+    unfold memUnlock
+    rw [memUnlock_now o ks]
+    cases get s.entries k with
+    | none => rfl
+    | some v => by_cases hv : (v.owner == o) = true <;> simp [hv]
+
+/-- the owner on whose behalf a call is made -/
+def memActor : MemOp → Option Nat
+  | .adv _ => none
+  | .lock o _ _ _ => some o
+  | .dualLock o _ _ _ => some o
+  | .isLocked o _ => some o
+  | .isLockedTTL o _ _ => some o
+  | .unlock o _ => some o
+
+theorem memStep_keeps {cfg : MemCfg} (s : Mem) (op : MemOp) (o : Nat) (ho : memActor op ≠ some o) :
+    ∀ g ∈ s.grants, g.owner = o → g ∈ (memStep cfg s op).1.grants := by
+  intro g hg hgo
+  cases op with
+  | adv d => exact hg
+  | lock o' d keys hints =>
+    have hne : g.owner ≠ o' := fun h => ho (by simp [memActor, ← h, hgo])
+    simp only [memStep]
+    split
+    · exact hg
+    · exact lockLoop_keeps o' _ _ s [] hints g hg hne
+  | dualLock o' d keys hints =>
+    have hne : g.owner ≠ o' := fun h => ho (by simp [memActor, ← h, hgo])
+    simp only [memStep]
+    have hl : g ∈ (memLock cfg s o' d keys hints).s.grants := lockLoop_keeps o' _ _ s [] hints g hg hne
+    split
+    · exact hg
+    · split
+      · exact hl
+      · show g ∈ (memIsLockedLoop cfg o' (sortKeys keys) (memLock cfg s o' d keys hints).s).1.grants
+        rw [isLockedLoop_grants]; exact hl
+  | isLocked o' keys =>
+    show g ∈ (memIsLockedLoop cfg o' keys s).1.grants
+    rw [isLockedLoop_grants]; exact hg
+  | isLockedTTL o' d keys =>
+    have hne : g.owner ≠ o' := fun h => ho (by simp [memActor, ← h, hgo])
+    show g ∈ (memIsLockedTTL cfg s o' d keys).1.grants
+    unfold memIsLockedTTL
+    have h1 := ttlCheck_grants (cfg := cfg) o' keys s
+    cases hc : memTtlCheck cfg o' keys s with
+    | mk s1 b =>
+      rw [hc] at h1
+      cases b with
+      | false => simp only []; rw [h1]; exact hg
+      | true =>
+        simp only []
+        apply ttlRefresh_keeps o' _ keys _ g _ hne
+        show g ∈ s1.grants
+        rw [h1]; exact hg
+  | unlock o' keys =>
+    have hne : g.owner ≠ o' := fun h => ho (by simp [memActor, ← h, hgo])
+    exact memUnlock_keeps o' keys s g hg hne
+
+
+/-! ## Redis: the lease invariant is preserved by every call that obeys the usage rule -/
+
+def RInv (s : Redis) : Prop := Inv redisLive s.entries s.grants s.now
+
+theorem RInv.congr {s s' : Redis} (h : RInv s) (he : s'.entries = s.entries) (hg : s'.grants = s.grants) (hn : s'.now = s.now) :
+    RInv s' := by unfold RInv; rw [he, hg, hn]; exact h
+
+theorem vget_some {s : Redis} {k : Nat} {e : Entry} (h : vget s k = some e) : get s.entries k = some e ∧ s.now < e.exp := by
+  unfold vget at h
+  split at h
+  · rename_i e' he'
+    split at h
+    · cases h; exact ⟨he', by assumption⟩
+    · cases h
+  · cases h
+
+theorem vget_none {s : Redis} {k : Nat} (h : vget s k = none) : ∀ e, get s.entries k = some e → ¬ redisLive.live s.now e.exp := by
+  intro e he hl
+  unfold vget at h
+  rw [he] at h
+  have : s.now < e.exp := hl
+  simp [this] at h
+
+theorem vget_congr {s s' : Redis} (he : s'.entries = s.entries) (hn : s'.now = s.now) (k : Nat) : vget s' k = vget s k := by
+  unfold vget; rw [he, hn]
+
+theorem setnxAll_inv (o d : Nat) : ∀ (ks : List Nat) (s : Redis), RInv s → RInv (redisSetnxAll o d ks s).1
+  | [], _, h => h
+  | k :: ks, s, h => by
+    unfold redisSetnxAll
+    cases hv : vget s k with
+    | none =>
+      simp only []
+      apply setnxAll_inv o d ks
+      exact Inv.put_dead (L := redisLive) h (vget_none hv)
+    | some e =>
+      simp only []
+      exact setnxAll_inv o d ks s h
+
+theorem checkFailed_same (o : Nat) : ∀ (ks : List Nat) (s : Redis),
+    (redisCheckFailed o ks s).1.entries = s.entries ∧ (redisCheckFailed o ks s).1.grants = s.grants ∧ (redisCheckFailed o ks s).1.now = s.now
+  | [], _ => ⟨rfl, rfl, rfl⟩
+  | k :: ks, s => by
+    unfold redisCheckFailed
+    cases vget s k with
+    | none => exact ⟨rfl, rfl, rfl⟩
+    | some e =>
+      simp only []
+      by_cases ho : (e.owner == o) = true
+      · simp only [ho, if_true]
+        exact checkFailed_same o ks (setFlag s o k true)
+      · simp only [ho]; exact ⟨rfl, rfl, rfl⟩
+
+theorem grantAll_inv (o : Nat) : ∀ (ks : List Nat) (s : Redis), RInv s → RInv (redisGrantAll o ks s)
+  | [], _, h => h
+  | k :: ks, s, h => by
+    unfold redisGrantAll
+    cases hv : vget s k with
+    | none => exact grantAll_inv o ks s h
+    | some e =>
+      simp only []
+      by_cases ho : (e.owner == o) = true
+      · simp only [ho, if_true]
+        apply grantAll_inv o ks
+        exact Inv.grant_existing (L := redisLive) h (vget_some hv).1 (by simpa using ho)
+      · simp only [ho]; exact grantAll_inv o ks s h
+
+theorem redisLock_inv (s : Redis) (o d : Nat) (keys : List Nat) (h : RInv s) : RInv (redisLock s o d keys).1 := by
+  unfold redisLock
+  have h1 := setnxAll_inv o d keys s h
+  cases hs : redisSetnxAll o d keys s with
+  | mk s1 failed =>
+    rw [hs] at h1
+    simp only []
+    cases failed with
+    | nil => exact grantAll_inv o keys s1 h1
+    | cons f fs =>
+      simp only []
+      have hc := checkFailed_same o (f :: fs) s1
+      cases hr : redisCheckFailed o (f :: fs) s1 with
+      | mk s2 r =>
+        rw [hr] at hc
+        obtain ⟨b, ow⟩ := r
+        have h2 : RInv s2 := RInv.congr h1 hc.1 hc.2.1 hc.2.2
+        cases b with
+        | true => exact grantAll_inv o keys s2 h2
+        | false => exact h2
+
+theorem isLockedLoop_same (o : Nat) : ∀ (ks : List Nat) (s : Redis) (r : Bool),
+    (redisIsLockedLoop o ks s r).1.entries = s.entries ∧ (redisIsLockedLoop o ks s r).1.grants = s.grants ∧ (redisIsLockedLoop o ks s r).1.now = s.now
+  | [], _, _ => ⟨rfl, rfl, rfl⟩
+  | k :: ks, s, r => by
+    unfold redisIsLockedLoop
+    cases vget s k with
+    | none => exact isLockedLoop_same o ks (setFlag s o k false) false
+    | some e =>
+      simp only []
+      by_cases ho : (e.owner != o) = true
+      · simp only [ho, if_true]; exact isLockedLoop_same o ks (setFlag s o k false) false
+      · simp only [ho, Bool.false_eq_true, if_false]; exact isLockedLoop_same o ks (setFlag s o k true) r
+
+theorem redisIsLocked_inv (s : Redis) (o : Nat) (keys : List Nat) (h : RInv s) : RInv (redisIsLocked s o keys).1 := by
+  have := isLockedLoop_same o keys s true
+  exact RInv.congr h this.1 this.2.1 this.2.2
+
+/-- the per-key usage rule of `IsLockedTTL` -/
+def TtlOk (s : Redis) (o d k : Nat) : Prop := ∀ e, vget s k = some e → e.owner = o ∨ e.exp ≤ s.now + d
+
+theorem ttlLoop_inv (o d : Nat) : ∀ (ks : List Nat) (s : Redis) (r : Bool), RInv s → (∀ k ∈ ks, TtlOk s o d k) →
+    RInv (redisTtlLoop o d ks s r).1
+  | [], _, _, h, _ => h
+  | k :: ks, s, r, h, hg => by
+    unfold redisTtlLoop
+    cases hv : vget s k with
+    | none =>
+      simp only []
+      apply ttlLoop_inv o d ks (setFlag s o k false) false (RInv.congr (s' := setFlag s o k false) h rfl rfl rfl)
+      intro k' hk' e he
+      exact hg k' (List.mem_cons_of_mem _ hk') e (by rw [← he]; exact (vget_congr (s' := setFlag s o k false) rfl rfl k').symm)
+    | some e =>
+      simp only []
+      obtain ⟨hget, hvis⟩ := vget_some hv
+      -- the guard survives the rewrite of key k's expiry
+      have guard' : ∀ (s1 : Redis), s1.entries = put s.entries ⟨k, e.owner, s.now + d⟩ → s1.now = s.now →
+          ∀ k' ∈ ks, TtlOk s1 o d k' := by
+        intro s1 he1 hn1 k' hk' e' he'
+        obtain ⟨hget', _⟩ := vget_some he'
+        rw [he1] at hget'
+        rw [hn1]
+        by_cases hkk : k' = k
+        · subst hkk
+          rw [get_put_same] at hget'
+          cases hget'
+          exact Or.inr (Nat.le_refl _)
+        · rw [get_put_ne _ _ (by simpa using hkk)] at hget'
+          apply hg k' (List.mem_cons_of_mem _ hk') e'
+          unfold vget
+          rw [hget']
+          have := (vget_some he').2
+          rw [hn1] at this
+          simp [this]
+      by_cases ho : (e.owner != o) = true
+      · simp only [ho, if_true]
+        have hfor : e.exp ≤ s.now + d := by
+          rcases hg k (List.mem_cons_self ..) e hv with h1 | h1
+          · exact absurd h1 (by simpa using ho)
+          · exact h1
+        apply ttlLoop_inv o d ks
+        · exact Inv.extend (L := redisLive) h hget hfor
+        · exact guard' _ rfl rfl
+      · simp only [ho, Bool.false_eq_true, if_false]
+        have hown : e.owner = o := by simpa using ho
+        apply ttlLoop_inv o d ks
+        · show Inv redisLive (put s.entries ⟨k, e.owner, s.now + d⟩) (grant s.grants ⟨k, o, s.now + d⟩) s.now
+          rw [hown]
+          apply Inv.put_grant h
+          intro e' he'
+          rw [hget] at he'; cases he'
+          exact Or.inr hown
+        · exact guard' _ rfl rfl
+
+theorem delAll_same : ∀ (ks : List Nat) (s : Redis),
+    (redisDelAll ks s).grants = s.grants ∧ (redisDelAll ks s).now = s.now ∧ (redisDelAll ks s).flags = s.flags
+  | [], _ => ⟨rfl, rfl, rfl⟩
+  | k :: ks, s => by unfold redisDelAll; exact delAll_same ks _
+
+theorem delAll_get_mem : ∀ (ks : List Nat) (s : Redis) (k : Nat), k ∈ ks → get (redisDelAll ks s).entries k = none
+  | [], _, _, h => by cases h
+  | k0 :: ks, s, k, h => by
+    unfold redisDelAll
+    by_cases hm : k ∈ ks
+    · exact delAll_get_mem ks _ k hm
+    · have : k = k0 := by simpa [hm] using h
+      subst this
+      have : ∀ (ks : List Nat) (s : Redis), get s.entries k = none → get (redisDelAll ks s).entries k = none := by
+        intro ks
+        induction ks with
+        | nil => intro s h; exact h
+        | cons a as ih =>
+          intro s h
+          unfold redisDelAll
+          apply ih
+          by_cases ha : k = a
+          · subst ha; exact get_del_same _ _
+          · show get (del s.entries a) k = none
+            rw [get_del_ne _ ha]; exact h
+      exact this ks _ (get_del_same _ _)
+
+theorem delAll_get_not_mem : ∀ (ks : List Nat) (s : Redis) (k : Nat), k ∉ ks → get (redisDelAll ks s).entries k = get s.entries k
+  | [], _, _, _ => rfl
+  | k0 :: ks, s, k, h => by
+    unfold redisDelAll
+    have h1 : k ≠ k0 := fun e => h (e ▸ List.mem_cons_self ..)
+    have h2 : k ∉ ks := fun e => h (List.mem_cons_of_mem _ e)
+    rw [delAll_get_not_mem ks _ k h2]
+    exact get_del_ne _ h1
+
+theorem redisUnlock_inv (s : Redis) (o : Nat) (keys : List Nat) (h : RInv s)
+    (hg : ∀ k ∈ keys, flagged s o k = true → ∀ e, vget s k = some e → e.owner = o) : RInv (redisUnlock s o keys) := by
+  unfold redisUnlock
+  intro g hgm hl
+  have hsame := delAll_same (keys.filter (flagged s o)) s
+  simp only [] at hgm hl ⊢
+  rw [hsame.1] at hgm
+  rw [hsame.2.1] at hl
+  obtain ⟨hg1, hg2⟩ := mem_releaseAll.1 hgm
+  obtain ⟨e, he, ho, hx⟩ := h g hg1 hl
+  by_cases hdel : g.key ∈ keys.filter (flagged s o)
+  · -- the key was deleted: then it carried the caller's value, so the lease was the caller's and is released
+    obtain ⟨hk, hf⟩ := List.mem_filter.1 hdel
+    have hvis : s.now < e.exp := Nat.lt_of_lt_of_le hl hx
+    have hv : vget s g.key = some e := by unfold vget; rw [he]; simp [hvis]
+    exact absurd ⟨hk, ho ▸ hg g.key hk hf e hv⟩ hg2
+  · exact ⟨e, by rw [delAll_get_not_mem _ _ _ hdel]; exact he, ho, hx⟩
+
+theorem redisStep_inv (s : Redis) (op : RedisOp) (h : RInv s) (hok : redisOpOk s op = true) : RInv (redisStep s op).1 := by
+  cases op with
+  | adv d => exact Inv.time (n' := s.now + d) h (Nat.le_add_right _ _)
+  | lock o d keys => exact redisLock_inv s o d keys h
+  | dualLock o d keys =>
+    simp only [redisStep]
+    have h1 := redisLock_inv s o d keys h
+    cases hr : redisLock s o d keys with
+    | mk s2 r =>
+      rw [hr] at h1
+      obtain ⟨b, ow⟩ := r
+      cases b with
+      | false => exact h1
+      | true => exact redisIsLocked_inv s2 o keys h1
+  | isLocked o keys => exact redisIsLocked_inv s o keys h
+  | isLockedTTL o d keys =>
+    apply ttlLoop_inv o d keys s true h
+    intro k hk e he
+    simp only [redisOpOk, List.all_eq_true] at hok
+    have := hok k hk
+    rw [he] at this
+    simpa using this
+  | unlock o keys =>
+    apply redisUnlock_inv s o keys h
+    intro k hk hf e he
+    simp only [redisOpOk, List.all_eq_true] at hok
+    have := hok k hk
+    rw [he, hf] at this
+    simpa using this
+
+theorem redisRun_inv : ∀ (ops : List RedisOp) (s : Redis), RInv s → redisDisciplined s ops = true → RInv (redisRun s ops)
+  | [], _, h, _ => h
+  | op :: ops, s, h, hd => by
+    simp only [redisDisciplined, Bool.and_eq_true] at hd
+    show RInv (redisRun (redisStep s op).1 ops)
+    exact redisRun_inv ops _ (redisStep_inv s op h hd.1) hd.2
+
+
+
+/-! ## Redis: a Lock that answers true has granted every key (the ghost misses no holder) -/
+
+/-- the server holds a visible entry of owner `o` under `k` -/
+def Own (o : Nat) (s : Redis) (k : Nat) : Prop := ∃ e, vget s k = some e ∧ e.owner = o
+
+theorem Own.congr {o : Nat} {s s' : Redis} {k : Nat} (h : Own o s k) (he : s'.entries = s.entries) (hn : s'.now = s.now) : Own o s' k := by
+  obtain ⟨e, hv, ho⟩ := h
+  exact ⟨e, by rw [vget_congr he hn]; exact hv, ho⟩
+
+theorem setnxAll_now (o d : Nat) : ∀ (ks : List Nat) (s : Redis), (redisSetnxAll o d ks s).1.now = s.now
+  | [], _ => rfl
+  | k :: ks, s => by
+    unfold redisSetnxAll
+    cases vget s k with
+    | none => simp only []; rw [setnxAll_now o d ks]; rfl
+    | some e => simp only []; exact setnxAll_now o d ks s
+
+theorem setnxAll_mono (o d : Nat) (k : Nat) : ∀ (ks : List Nat) (s : Redis), Own o s k → Own o (redisSetnxAll o d ks s).1 k
+  | [], _, h => h
+  | k0 :: ks, s, h => by
+    unfold redisSetnxAll
+    cases hv : vget s k0 with
+    | none =>
+      simp only []
+      apply setnxAll_mono o d k ks
+      obtain ⟨e, he, ho⟩ := h
+      have hne : k ≠ k0 := by intro hk; subst hk; rw [hv] at he; cases he
+      refine ⟨e, ?_, ho⟩
+      obtain ⟨hg, hvis⟩ := vget_some he
+      unfold vget
+      show (match get (put s.entries ⟨k0, o, s.now + d⟩) k with
+        | some e => if s.now < e.exp then some e else none | none => none) = some e
+      rw [get_put_ne _ _ (by simpa using hne), hg]
+      simp [hvis]
+    | some e => simp only []; exact setnxAll_mono o d k ks s h
+
+theorem setnxAll_own (o d : Nat) (hd : 0 < d) : ∀ (ks : List Nat) (s : Redis) (k : Nat), k ∈ ks →
+    Own o (redisSetnxAll o d ks s).1 k ∨ k ∈ (redisSetnxAll o d ks s).2
+  | [], _, _, h => by cases h
+  | k0 :: ks, s, k, h => by
+    unfold redisSetnxAll
+    cases hv : vget s k0 with
+    | none =>
+      simp only []
+      rcases List.mem_cons.1 h with rfl | hk
+      · left
+        apply setnxAll_mono o d k ks
+        refine ⟨⟨k, o, s.now + d⟩, ?_, rfl⟩
+        unfold vget
+        show (match get (put s.entries ⟨k, o, s.now + d⟩) k with
+          | some e => if s.now < e.exp then some e else none | none => none) = _
+        rw [show get (put s.entries ⟨k, o, s.now + d⟩) k = some ⟨k, o, s.now + d⟩ from get_put_same _ ⟨k, o, s.now + d⟩]
+        have : s.now < s.now + d := by omega
+        simp [this]
+      · exact setnxAll_own o d hd ks _ k hk
+    | some e =>
+      simp only []
+      rcases List.mem_cons.1 h with rfl | hk
+      · exact Or.inr (List.mem_cons_self ..)
+      · rcases setnxAll_own o d hd ks s k hk with h1 | h1
+        · exact Or.inl h1
+        · exact Or.inr (List.mem_cons_of_mem _ h1)
+
+theorem checkFailed_own (o : Nat) : ∀ (ks : List Nat) (s : Redis), (redisCheckFailed o ks s).2.1 = true → ∀ k ∈ ks, Own o s k
+  | [], _, _, _, h => by cases h
+  | k0 :: ks, s, hr, k, hk => by
+    unfold redisCheckFailed at hr
+    cases hv : vget s k0 with
+    | none => rw [hv] at hr; cases hr
+    | some e =>
+      rw [hv] at hr
+      simp only [] at hr
+      by_cases ho : (e.owner == o) = true
+      · simp only [ho, if_true] at hr
+        rcases List.mem_cons.1 hk with rfl | hk'
+        · exact ⟨e, hv, by simpa using ho⟩
+        · exact (checkFailed_own o ks _ hr k hk').congr rfl rfl
+      · simp only [ho] at hr; cases hr
+
+/-- `o` has a live lease on `k` -/
+def Holds (o : Nat) (s : Redis) (k : Nat) : Prop := ∃ g ∈ s.grants, g.key = k ∧ s.now < g.dl ∧ g.owner = o
+
+theorem grantAll_same (o : Nat) : ∀ (ks : List Nat) (s : Redis),
+    (redisGrantAll o ks s).entries = s.entries ∧ (redisGrantAll o ks s).now = s.now
+  | [], _ => ⟨rfl, rfl⟩
+  | k :: ks, s => by
+    unfold redisGrantAll
+    cases vget s k with
+    | none => exact grantAll_same o ks s
+    | some e =>
+      simp only []
+      by_cases ho : (e.owner == o) = true
+      · simp only [ho, if_true]; exact grantAll_same o ks _
+      · simp only [ho]; exact grantAll_same o ks s
+
+theorem grantAll_keeps (o k : Nat) : ∀ (ks : List Nat) (s : Redis), Holds o s k → Holds o (redisGrantAll o ks s) k
+  | [], _, h => h
+  | k0 :: ks, s, h => by
+    unfold redisGrantAll
+    cases hv : vget s k0 with
+    | none => exact grantAll_keeps o k ks s h
+    | some e =>
+      simp only []
+      by_cases ho : (e.owner == o) = true
+      · simp only [ho, if_true]
+        apply grantAll_keeps o k ks
+        obtain ⟨g, hg, hk, hl, hgo⟩ := h
+        by_cases hkk : k = k0
+        · exact ⟨⟨k0, o, e.exp⟩, mem_grant.2 (Or.inl rfl), hkk.symm, (vget_some hv).2, rfl⟩
+        · exact ⟨g, mem_grant.2 (Or.inr ⟨hg, fun ⟨a, _⟩ => hkk (hk ▸ a)⟩), hk, hl, hgo⟩
+      · simp only [ho]; exact grantAll_keeps o k ks s h
+
+theorem grantAll_holds (o : Nat) : ∀ (ks : List Nat) (s : Redis) (k : Nat), k ∈ ks → Own o s k → Holds o (redisGrantAll o ks s) k
+  | [], _, _, h, _ => by cases h
+  | k0 :: ks, s, k, hk, hown => by
+    unfold redisGrantAll
+    by_cases hkk : k = k0
+    · subst hkk
+      obtain ⟨e, hv, ho⟩ := hown
+      rw [hv]
+      have : (e.owner == o) = true := by simpa using ho
+      simp only [this, if_true]
+      apply grantAll_keeps o k ks
+      exact ⟨⟨k, o, e.exp⟩, mem_grant.2 (Or.inl rfl), rfl, (vget_some hv).2, rfl⟩
+    · have hk' : k ∈ ks := by simpa [hkk] using hk
+      cases hv : vget s k0 with
+      | none => exact grantAll_holds o ks s k hk' hown
+      | some e =>
+        simp only []
+        by_cases ho : (e.owner == o) = true
+        · simp only [ho, if_true]
+          exact grantAll_holds o ks _ k hk' (hown.congr rfl rfl)
+        · simp only [ho]; exact grantAll_holds o ks s k hk' hown
+
+/-- a `Lock` that answers true has handed out a live lease on every listed key -/
+theorem redisLock_true_holds (s : Redis) (o d : Nat) (keys : List Nat) (hd : 0 < d)
+    (hok : (redisLock s o d keys).2.1 = true) : ∀ k ∈ keys, Holds o (redisLock s o d keys).1 k := by
+  intro k hk
+  unfold redisLock at hok ⊢
+  have hown := setnxAll_own o d hd keys s k hk
+  cases hs : redisSetnxAll o d keys s with
+  | mk s1 failed =>
+    rw [hs] at hown hok
+    simp only [] at hok hown ⊢
+    cases failed with
+    | nil =>
+      simp only [] at hok ⊢
+      rcases hown with h1 | h1
+      · exact grantAll_holds o keys s1 k hk h1
+      · cases h1
+    | cons f fs =>
+      simp only [] at hok ⊢
+      have hc := checkFailed_same o (f :: fs) s1
+      have hco := checkFailed_own o (f :: fs) s1
+      cases hr : redisCheckFailed o (f :: fs) s1 with
+      | mk s2 r =>
+        rw [hr] at hc hco hok
+        obtain ⟨b, ow⟩ := r
+        cases b with
+        | false => simp at hok
+        | true =>
+          simp only [] at hok ⊢
+          apply grantAll_holds o keys s2 k hk
+          rcases hown with h1 | h1
+          · exact h1.congr hc.1 hc.2.2
+          · exact (hco rfl k h1).congr hc.1 hc.2.2
+
 end Sop.Locks
